@@ -10,7 +10,7 @@
     on the current model.  All vocabulary of the statements is defined in Model/Headers.v and
     Model/HeadersSpec.v.  This file contains only statements, [exact], and [Print Assumptions]. *)
 From Coq Require Import String List NArith ZArith Bool.
-From Fabio Require Import Lib.Outcome Lib.Bytes Model.Headers Model.HeadersSpec Proofs.Headers.
+From Fabio Require Import Lib.Outcome Lib.Bytes Model.Headers Model.HeadersSpec Model.HeaderLines Proofs.Headers Proofs.HeaderLines.
 Import ListNotations.
 Local Open Scope N_scope.
 
@@ -266,6 +266,72 @@ Theorem C08_clauses_nonvacuous :
     hfind up (bs "X-Tls") = None /\ hfind up K_XRI = Some [ex_peer].
 Proof. exact clauses_nonvacuous. Qed.
 Print Assumptions C08_clauses_nonvacuous.
+
+(* ---------------- from the client's header LINES to the upstream's end of the wire ----------------
+   (Model/HeaderLines.v: [parse_lines] = the header map the net/http server hands to fabio for the
+   lines a client wrote, [serve_lines] = what the upstream reads off the wire for them) *)
+
+(* Whatever lines a client writes -- empty values, blank values, repeated names, any casing -- no
+   key of the header map is present without a value: the nil "do not populate X-Forwarded-For"
+   marker cannot come from a client. *)
+Theorem C08_lines_wf : forall ls, wf_hdr (parse_lines ls) = true.
+Proof. exact lines_wf. Qed.
+Print Assumptions C08_lines_wf.
+
+(* ... and what the map holds, declaratively: under a canonical name exactly the trimmed values of
+   the lines with that name, in the order of the lines (an empty line contributes ""). *)
+Theorem C08_lines_values : forall ls k,
+  hfind (parse_lines ls) k = match values_of k ls with [] => None | xs => Some xs end.
+Proof. exact lines_values. Qed.
+Print Assumptions C08_lines_values.
+
+(* The peer is the last element of the X-Forwarded-For line the upstream reads, for ALL lists of
+   header lines (no well-formedness hypothesis), on the ReverseProxy and on the websocket path. *)
+Theorem C08_lines_xff_last_is_peer : forall cfg t uuid r ls peer up sts,
+  serve_lines cfg t uuid r ls = Ok (up, sts) -> r_peer r = Some peer ->
+  off K_XFF (c_tlsheader cfg) ->
+  off K_UPGRADE (c_clientip cfg) -> off K_UPGRADE (c_tlsheader cfg) -> off K_UPGRADE (c_reqid cfg) ->
+  cl_xff up peer = true.
+Proof. exact lines_xff_last_is_peer. Qed.
+Print Assumptions C08_lines_xff_last_is_peer.
+
+(* Every clause at the upstream's end of the wire, for all header lines outside regions 5 / 6. *)
+Theorem C08_lines_all_clauses_on_domain : forall cfg t uuid r ls peer up sts,
+  cfg_sane cfg = true -> no_region (parse_lines ls) = true ->
+  serve_lines cfg t uuid r ls = Ok (up, sts) -> r_peer r = Some peer ->
+  all_hold (clauses cfg (parse_lines ls) peer (r_host r) (local_port (r_host r) (is_tls r)) (is_tls r) true up) = true.
+Proof. exact lines_clauses_on_domain. Qed.
+Print Assumptions C08_lines_all_clauses_on_domain.
+
+(* non-vacuity on the input class itself: the client's only X-Forwarded-For lines are an empty and
+   a blank one; the upstream reads "X-Forwarded-For: , , 1.2.3.4" on both paths *)
+Theorem C08_lines_blank_xff_nonvacuous :
+  let ls := [(bs "x-forwarded-for", []); (bs "Accept", bs "*/*"); (bs "X-FORWARDED-FOR", bs "  ")] in
+  let lsw := ls ++ [(bs "upgrade", bs "websocket"); (bs "Connection", bs " Upgrade")] in
+  only_blank_xff ls = true /\ only_blank_xff lsw = true /\
+  hfind (parse_lines ls) K_XFF = Some [[]; []] /\
+  exists up sts upw stsw,
+    serve_lines ex_cfg (ex_tgt []) [] (ex_req None []) ls = Ok (up, sts) /\
+    hfind up K_XFF = Some [bs ", , 1.2.3.4"] /\ cl_xff up ex_peer = true /\
+    serve_lines ex_cfg (ex_tgt []) [] (ex_req None []) lsw = Ok (upw, stsw) /\
+    takes_ws_path upw = true /\
+    hfind upw K_XFF = Some [bs ", , 1.2.3.4"] /\ cl_xff upw ex_peer = true /\
+    all_hold (clauses ex_cfg (parse_lines ls) ex_peer (bs "example.com") (spec_port (bs "example.com") false) false true up) = true.
+Proof. exact lines_blank_xff_nonvacuous. Qed.
+Print Assumptions C08_lines_blank_xff_nonvacuous.
+
+(* Why [wf_hdr] is a hypothesis of C08_xff_last_is_peer and what C08_lines_wf buys: a header map
+   that does carry the nil marker under X-Forwarded-For hides the peer from the upstream on both
+   paths -- no X-Forwarded-For line is written at all. *)
+Theorem C08_xff_nil_marker_refuted :
+  exists cfg t uuid r rw up sts upw stsw,
+    cfg_sane cfg = true /\ wf_hdr (r_hdr r) = false /\ wf_hdr (r_hdr rw) = false /\
+    hfind (r_hdr r) K_XFF = Some [] /\ hfind (r_hdr rw) K_XFF = Some [] /\
+    serve_wire cfg t uuid r = Ok (up, sts) /\ hfind up K_XFF = None /\ cl_xff up ex_peer = false /\
+    serve_wire cfg t uuid rw = Ok (upw, stsw) /\ takes_ws_path upw = true /\
+    hfind upw K_XFF = None /\ cl_xff upw ex_peer = false.
+Proof. exact xff_nil_marker_refuted. Qed.
+Print Assumptions C08_xff_nil_marker_refuted.
 
 (* ---------------- refutations (each reproduced on the real code by the harness) ---------------- *)
 
